@@ -36,6 +36,7 @@ package join
 //   gOwned        backing arrays handed to the consumer for good (copy mode)
 //   gLent         backing array lent to the consumer until released (no-copy mode), 0 = none
 //   gLastDeliv    clock value at the last delivery (or at creation)
+//   gJS, gTO, gNC the configured JoinSize, Timeout and no-copy mode (Opts at New)
 
 //@ ghost var gIn map[int]T
 //@ ghost var gInN int
@@ -47,6 +48,9 @@ package join
 //@ ghost var gOwned set
 //@ ghost var gLent ref
 //@ ghost var gLastDeliv time
+//@ ghost var gJS int
+//@ ghost var gTO int
+//@ ghost var gNC bool
 
 //@ event recv dsc.opts.Input (item, opened)
 //@   effect gIn := ite(opened, store(gIn, gInN, item), gIn)
@@ -64,19 +68,19 @@ package join
 // What C03 / C08 / C09 / C16 say about a slice at the moment it is delivered.
 //@ event send dsc.output (s)
 //@   requires [C03] never-empty: len(s) >= 1
-//@   requires [C03] at-most-joinsize: len(s) <= dsc.opts.JoinSize
+//@   requires [C03] at-most-joinsize: len(s) <= gJS
 //@   requires [C03] no-gap-unless-stopped: !gStop ==> gOutN + len(s) == gInN
 //@   requires [C03 C16] in-order-subsequence-of-the-input: gInN - len(s) >= gDelivPos && (forall j :: 0 <= j && j < len(s) ==> s[j] == gIn[gInN - len(s) + j])
-//@   requires [C09] cut-short-only-by-timeout-or-end: dsc.opts.Timeout <= 0 ==> (len(s) == dsc.opts.JoinSize || gClosed || gStop)
-//@   requires [C09] short-slice-not-before-timeout: (len(s) < dsc.opts.JoinSize && !gClosed && !gStop) ==> gClock - gLastDeliv >= dsc.opts.Timeout
-//@   requires [C08] copy-shares-no-memory: dsc.opts.Released == nil ==> (!in(gOwned, s.arr) && s.arr != dsc.join.arr)
+//@   requires [C09] cut-short-only-by-timeout-or-end: gTO <= 0 ==> (len(s) == gJS || gClosed || gStop)
+//@   requires [C09] short-slice-not-before-timeout: (len(s) < gJS && !gClosed && !gStop) ==> gClock - gLastDeliv >= gTO
+//@   requires [C08] copy-shares-no-memory: !gNC ==> (!in(gOwned, s.arr) && s.arr != dsc.join.arr)
 //@   requires [C08] nothing-on-loan: gLent == 0
 //@   requires [C16] nothing-after-close: !gOutClosed
 //@   effect gOutN := gOutN + len(s)
 //@   effect gDelivPos := gInN
 //@   effect gLastDeliv := gClock
-//@   effect gLent := ite(dsc.opts.Released != nil, s.arr, 0)
-//@   effect gOwned := ite(dsc.opts.Released != nil, gOwned, store(gOwned, s.arr, true))
+//@   effect gLent := ite(gNC, s.arr, 0)
+//@   effect gOwned := ite(gNC, gOwned, store(gOwned, s.arr, true))
 
 //@ event recv dsc.opts.Released ()
 //@   effect gLent := 0
@@ -96,8 +100,9 @@ package join
 //@   requires [C16] output-closed-when-stop-returns: gOutClosed
 
 //@ pred WFJ(dsc)
-//@   [*] dsc != nil && dsc.opts.JoinSize >= 1 && dsc.opts.JoinSize < two63
-//@   [*] cap(dsc.join) == dsc.opts.JoinSize && len(dsc.join) <= dsc.opts.JoinSize && dsc.join.arr != 0 && allocated(dsc.join.arr)
+//@   [* C03 C08 C09 C10 C11] configured-options-are-used: dsc != nil && dsc.opts.JoinSize == gJS && dsc.opts.Timeout == gTO && ((dsc.opts.Released != nil) <==> gNC)
+//@   [*] dsc != nil && gJS >= 1 && gJS < two63
+//@   [*] cap(dsc.join) == gJS && len(dsc.join) <= gJS && dsc.join.arr != 0 && allocated(dsc.join.arr)
 //@   [*] dsc.interruptInterval >= 0
 //@   [*] dsc.unreleased ==> gStop
 
@@ -116,15 +121,15 @@ package join
 //@   [C09] gLastDeliv <= dsc.passAt && dsc.passAt <= gClock
 
 //@ func (*Discipline).resetPassAt
-//@   requires [*] dsc != nil
+//@   requires [*] WFJ(dsc)
 //@   requires [C10] timer-restarts-only-with-empty-buffer-or-after-stop: len(dsc.join) == 0 || gStop
 //@   modifies dsc.passAt, gClock
 //@   ensures [* C09 C10] dsc.passAt == gClock && gClock >= old(gClock)
 
 //@ func (*Discipline).isTimeouted
-//@   requires [*] dsc != nil
+//@   requires [*] WFJ(dsc)
 //@   modifies gClock
-//@   ensures [* C09 C10] gClock >= old(gClock) && (result <==> gClock - dsc.passAt >= dsc.opts.Timeout)
+//@   ensures [* C09 C10] gClock >= old(gClock) && (result <==> gClock - dsc.passAt >= gTO)
 
 //@ func (*Discipline).resetJoin
 //@   requires [*] WFJ(dsc)
@@ -133,19 +138,19 @@ package join
 //@   ensures [* C03 C08 C10 C16] len(dsc.join) == 0 || (dsc.unreleased && len(dsc.join) == old(len(dsc.join)))
 
 //@ func (*Discipline).prepareItem
-//@   requires [*] dsc != nil
-//@   ensures [* C03 C08 C16] dsc.opts.Released != nil ==> result == item
+//@   requires [*] WFJ(dsc)
+//@   ensures [* C03 C08 C16] gNC ==> result == item
 //@   ensures [* C03 C16] len(result) == len(item) && (forall j :: 0 <= j && j < len(item) ==> result[j] == item[j])
-//@   ensures [C08] (dsc.opts.Released == nil && len(item) > 0) ==> fresh(result.arr)
+//@   ensures [C08] (!gNC && len(item) > 0) ==> fresh(result.arr)
 
 //@ func (*Discipline).send
 //@   requires [*] WFJ(dsc)
 //@   requires [* C03 C08 C16] !dsc.unreleased
 //@   requires [C03 C08] len(item) >= 1
-//@   requires [C03] len(item) <= dsc.opts.JoinSize && (!gStop ==> gOutN + len(item) == gInN)
+//@   requires [C03] len(item) <= gJS && (!gStop ==> gOutN + len(item) == gInN)
 //@   requires [C03 C16] gInN - len(item) >= gDelivPos && (forall j :: 0 <= j && j < len(item) ==> item[j] == gIn[gInN - len(item) + j])
-//@   requires [C09] dsc.opts.Timeout <= 0 ==> (len(item) == dsc.opts.JoinSize || gClosed || gStop)
-//@   requires [C09] (len(item) < dsc.opts.JoinSize && !gClosed && !gStop) ==> gClock - gLastDeliv >= dsc.opts.Timeout
+//@   requires [C09] gTO <= 0 ==> (len(item) == gJS || gClosed || gStop)
+//@   requires [C09] (len(item) < gJS && !gClosed && !gStop) ==> gClock - gLastDeliv >= gTO
 //@   requires [C09] gLastDeliv <= gClock
 //@   requires [C08] OWN(dsc)
 //@   requires [C08] item.arr == dsc.join.arr
@@ -163,8 +168,8 @@ package join
 //@   requires [C03 C16] SEQ(dsc)
 //@   requires [C08] OWN(dsc)
 //@   requires [C09] TIME(dsc)
-//@   requires [C09] dsc.opts.Timeout <= 0 ==> (len(dsc.join) == 0 || len(dsc.join) == dsc.opts.JoinSize || gClosed || gStop || dsc.unreleased)
-//@   requires [C09] len(dsc.join) == 0 || len(dsc.join) == dsc.opts.JoinSize || gClosed || gStop || dsc.unreleased || gClock - dsc.passAt >= dsc.opts.Timeout
+//@   requires [C09] gTO <= 0 ==> (len(dsc.join) == 0 || len(dsc.join) == gJS || gClosed || gStop || dsc.unreleased)
+//@   requires [C09] len(dsc.join) == 0 || len(dsc.join) == gJS || gClosed || gStop || dsc.unreleased || gClock - dsc.passAt >= gTO
 //@   requires [C16] !gOutClosed
 //@   modifies dsc.join, dsc.passAt, dsc.unreleased, gClock, gOutN, gDelivPos, gLastDeliv, gLent, gOwned, gStop
 //@   ensures [*] WFJ(dsc)
@@ -179,7 +184,7 @@ package join
 
 //@ func (*Discipline).process
 //@   requires [*] WFJ(dsc)
-//@   requires [*] len(dsc.join) < dsc.opts.JoinSize || dsc.unreleased
+//@   requires [*] len(dsc.join) < gJS || dsc.unreleased
 //@   requires [C03 C16] dsc.unreleased || (gDelivPos + len(dsc.join) + 1 <= gInN && gOutN >= 0 && item == gIn[gInN - 1]
 //@            && (forall j :: 0 <= j && j < len(dsc.join) ==> dsc.join[j] == gIn[gInN - 1 - len(dsc.join) + j]))
 //@   requires [C03] gStop || gOutN + len(dsc.join) + 1 == gInN
@@ -188,7 +193,7 @@ package join
 //@   requires [C16] !gOutClosed
 //@   modifies dsc.join, elems(dsc.join), dsc.passAt, dsc.unreleased, gClock, gOutN, gDelivPos, gLastDeliv, gLent, gOwned, gStop
 //@   ensures [*] WFJ(dsc)
-//@   ensures [*] len(dsc.join) < dsc.opts.JoinSize || dsc.unreleased
+//@   ensures [*] len(dsc.join) < gJS || dsc.unreleased
 //@   ensures [* C03 C08 C09 C16] old(gStop) ==> gStop
 //@   ensures [C03 C16] SEQ(dsc)
 //@   ensures [C08] OWN(dsc)
@@ -196,7 +201,7 @@ package join
 
 //@ pred INV(dsc)
 //@   [*] WFJ(dsc)
-//@   [*] len(dsc.join) < dsc.opts.JoinSize || dsc.unreleased
+//@   [*] len(dsc.join) < gJS || dsc.unreleased
 //@   [C03 C16] SEQ(dsc)
 //@   [C08] OWN(dsc)
 //@   [C09] TIME(dsc)
@@ -205,7 +210,7 @@ package join
 //@ func (*Discipline).loop
 //@   requires [*] INV(dsc)
 //@   requires [*] dsc.interruptInterval > 0
-//@   requires [C09] dsc.opts.Timeout > 0
+//@   requires [C09] gTO > 0
 //@   requires [C03] !gClosed
 //@   modifies dsc.join, elems(dsc.join), dsc.passAt, dsc.unreleased, gClock, gIn, gInN, gClosed, gOutN, gDelivPos, gLastDeliv, gLent, gOwned, gStop
 //@   ensures [C03] gStop || (gClosed && gOutN == gInN)
@@ -217,7 +222,7 @@ package join
 //@ func (*Discipline).loopUntimeouted
 //@   requires [*] INV(dsc)
 //@   requires [C03] !gClosed
-//@   requires [C09] dsc.opts.Timeout <= 0
+//@   requires [C09] gTO <= 0
 //@   modifies dsc.join, elems(dsc.join), dsc.passAt, dsc.unreleased, gClock, gIn, gInN, gClosed, gOutN, gDelivPos, gLastDeliv, gLent, gOwned, gStop
 //@   ensures [C03] gStop || (gClosed && gOutN == gInN)
 //@   ensures [C16] !gOutClosed
@@ -228,20 +233,20 @@ package join
 //@ func (*Discipline).main
 //@   requires [*] INV(dsc)
 //@   requires [C03] !gClosed
-//@   requires [C09] (dsc.interruptInterval == 0) <==> (dsc.opts.Timeout <= 0)
+//@   requires [C09] (dsc.interruptInterval == 0) <==> (gTO <= 0)
 //@   modifies dsc.join, elems(dsc.join), dsc.passAt, dsc.unreleased, gClock, gIn, gInN, gClosed, gOutN, gDelivPos, gLastDeliv, gLent, gOwned, gStop, gOutClosed
 
 //@ func Opts.isValid
 //@   ensures [*] (result == nil) <==> (opts.Input != nil && opts.JoinSize != 0)
 
 //@ func Opts.normalize
-//@   ensures [*] result.Input == opts.Input && result.JoinSize == opts.JoinSize && result.Released == opts.Released && result.Timeout == opts.Timeout
+//@   ensures [* C03 C08 C09 C10 C11] options-are-kept: result.Input == opts.Input && result.JoinSize == opts.JoinSize && result.Released == opts.Released && result.Timeout == opts.Timeout
 //@   ensures [* C10] result.TimeoutInaccuracy == ite(opts.TimeoutInaccuracy == 0, 25, opts.TimeoutInaccuracy)
 
 // The ghost state of a discipline that does not exist yet is empty. JoinSize is a size
 // the runtime can allocate (otherwise make panics in New).
 //@ func New
-//@   requires [*] ghost-initial-state: gInN == 0 && gOutN == 0 && gDelivPos == 0 && !gClosed && !gStop && !gOutClosed && gLent == 0 && gLastDeliv == gClock && (forall r :: !in(gOwned, r))
+//@   requires [*] ghost-initial-state: gJS == opts.JoinSize && gTO == opts.Timeout && ((opts.Released != nil) <==> gNC) && gInN == 0 && gOutN == 0 && gDelivPos == 0 && !gClosed && !gStop && !gOutClosed && gLent == 0 && gLastDeliv == gClock && (forall r :: !in(gOwned, r))
 //@   requires [*] allocatable: opts.JoinSize < two63
 //@   modifies gClock
 //@   ensures [*] result1 == nil ==> result0 != nil
